@@ -11,7 +11,7 @@ use crate::child::{self, Opts, Outcome, SolverKind};
 use crate::gen_lp::{self, Doms, LpCfg};
 use crate::rng::Rng;
 use crate::sx;
-use rooc::{Assignment, LinearModel, LpSolution, Tableau};
+use rooc::{Assignment, Comparison, LinearModel, LpSolution, OptimizationType, Tableau, VariableType};
 use std::time::Duration;
 
 pub const TIMEOUT: Duration = Duration::from_secs(3);
@@ -108,6 +108,31 @@ fn helper_cases(r: &mut Rng, lm: &LinearModel, out: &mut Vec<Case>) {
     let n = lm.variables().len();
     let len = if r.chance(1, 8) { r.below(n + 2) } else { n };
     let values: Vec<f64> = (0..len).map(|_| if r.chance(1, 3) { special(r) } else { r.range(-6, 6) as f64 }).collect();
+    helper_with(lm, values, out)
+}
+
+/// sub-tolerance coefficients (|c| < 1e-5, e.g. a unit conversion) next to large values: the activity still counts them
+/// (seeded change C04-16 filtered coefficients with the crate's 1e-5 `float_ne`) - deterministic
+fn tiny_coefficient_cases(out: &mut Vec<Case>) {
+    for c in [4e-6f64, -5e-6, 1e-6, 9.9e-6, 1e-7, 1e-5, 2e-5] {
+        for v in [2e6f64, -1e6, 1e7, 3.0] {
+            let mut lm = LinearModel::new();
+            lm.add_variable("g", VariableType::Real(f64::NEG_INFINITY, f64::INFINITY));
+            lm.add_variable("y", VariableType::Real(f64::NEG_INFINITY, f64::INFINITY));
+            lm.add_constraint(vec![c, 1.0], Comparison::GreaterOrEqual, 10.0);
+            lm.add_constraint(vec![1.0, c], Comparison::LessOrEqual, 5.0);
+            lm.add_constraint(vec![c, -c], Comparison::Equal, 0.0);
+            lm.set_objective(vec![c, 1.0], OptimizationType::Min);
+            let before = out.len();
+            helper_with(&lm, vec![v, 2.0], out);
+            for x in out[before..].iter_mut() { x.tags.push("helper-calc-tiny-coefficient".into()); }
+        }
+    }
+}
+
+fn helper_with(lm: &LinearModel, values: Vec<f64>, out: &mut Vec<Case>) {
+    let n = lm.variables().len();
+    let len = values.len();
     let obj = std::panic::catch_unwind(|| lm.calc_objective(&values)).ok();
     let cons = std::panic::catch_unwind(|| lm.calc_constraints(&values)).ok();
     let map = std::panic::catch_unwind(|| rooc::make_constraints_map_from_assignment(lm, &values)).ok();
@@ -120,6 +145,24 @@ fn helper_cases(r: &mut Rng, lm: &LinearModel, out: &mut Vec<Case>) {
     c.tags = vec!["helper-calc".into(), if len == n { "calc-lengths-match".into() } else { "calc-length-mismatch".into() }];
     c.nontrivial = len == n;
     c.show = format!("calc_objective/calc_constraints({:?}) on {}", values, show_model(lm));
+    // the property itself, judged on the implementation's answer: every reported row activity is that row's left-hand
+    // side at the given values (recomputed here term by term; relative 1e-9 of the sum of the terms' magnitudes)
+    if len == n && values.iter().all(|v| v.is_finite()) {
+        if let Ok(l) = std::panic::catch_unwind(|| lm.calc_constraints(&values)) {
+            for (k, row) in lm.constraints().iter().enumerate() {
+                if !row.coefficients().iter().all(|c| c.is_finite()) || row.coefficients().len() != n { continue; }
+                let (mut lhs, mut mag) = (0.0f64, 0.0f64);
+                for (c, v) in row.coefficients().iter().zip(values.iter()) { lhs += c * v; mag += (c * v).abs(); }
+                if let Some((_, act)) = l.get(k) {
+                    if lhs.is_finite() && (act - lhs).abs() > 1e-9 * (1.0 + mag) {
+                        c.sig = Some("row-activity-differs-from-lhs".into());
+                        c.impl_violation = Some(format!("calc_constraints reports activity {} for row {} whose left-hand side at the given values is {}", act, k, lhs));
+                        break;
+                    }
+                }
+            }
+        }
+    }
     out.push(c);
 }
 
@@ -272,6 +315,7 @@ pub fn generate(seed: u64, n: usize, thorough: bool, _corpus: Option<&str>) -> V
             solver_cases(&lm, &["variable-free".to_string()], "variable-free", &variants, &mut cases);
         }
     }
+    tiny_coefficient_cases(&mut cases);
     for lm in gen_lp::variable_free_block() { solver_cases(&lm, &["variable-free-block".to_string()], "variable-free", &variants, &mut cases); }
     let mut r3 = Rng::new(seed ^ 0xc7c1e);
     for (name, lm) in gen_lp::cycling_classics(&mut r3) { solver_cases(&lm, &[name.to_string()], "cycling-classics", &variants, &mut cases); }
